@@ -312,9 +312,28 @@ func TestCheck(t *testing.T) {
 			}
 		}
 	}
+	// the CLI route: a parent rebuilt under enforced foreign keys, the database named by either URL scheme
+	for _, scheme := range []string{"sqlite", "libsql+file"} {
+		for _, mode := range []string{"", "file"} {
+			for _, act := range []string{"CASCADE", "SET NULL"} {
+				c := UCase{Scheme: scheme, TxMode: mode, Action: act}
+				if !ev.Each(col, "cli-parent-rebuild-url-schemes", c, func(c UCase) error {
+					col.Class("cli/" + c.Scheme + "/parent-rebuild")
+					col.NonTrivial(fmt.Sprintf("url|%s|%s|%s", c.Scheme, c.TxMode, c.Action))
+					return checkURL(c)
+				}, ev.Matcher[UCase]{}) {
+					return
+				}
+			}
+		}
+	}
 	ev.Rapid(t, col, "engine-data", col.N(4000, 600000), genCase, check, known)
 }
 
 func TestReplay(t *testing.T) {
+	if strings.HasPrefix(ev.ReplaySub(), "cli-parent-rebuild") {
+		ev.ReplayFile(t, "C05", func(_ string, c UCase) error { return checkURL(c) })
+		return
+	}
 	ev.ReplayFile(t, "C05", func(_ string, c Case) error { _, err := checkCase(c); return err })
 }
